@@ -27,8 +27,8 @@ def mk(db, root, rc):
 
 
 def state_of(t):
-    rc = None if not t.is_pruning else {k: v for k, v in t._ref_count.items() if v}
-    return (t.root_hash, dict(t.db), rc, t._pending_prune_keys)
+    rc = None if not t.is_pruning else {k: v for k, v in t.ref_count.items() if v}
+    return (t.root_hash, dict(t.db), rc, getattr(t, "_pending_prune_keys", None))
 
 
 def trav_result(fn):
@@ -349,12 +349,12 @@ def mutate_with_retry(o, ft, op, in_batch, db, Mset, allowed, asked, check_exc, 
                         raise _Stop()
                     ft.db[h] = db[h]
             while True:
-                bb = (b.root_hash, dict(b.db.cache), {kk: vv for kk, vv in b._ref_count.items() if vv}, b._pending_prune_keys)
+                bb = (b.root_hash, dict(b.db.cache), {kk: vv for kk, vv in b.ref_count.items() if vv}, getattr(b, "_pending_prune_keys", None))
                 try:
                     apply_op(b, {}, op)
                     break
                 except MissingTrieNode as e:
-                    ba = (b.root_hash, dict(b.db.cache), {kk: vv for kk, vv in b._ref_count.items() if vv}, b._pending_prune_keys)
+                    ba = (b.root_hash, dict(b.db.cache), {kk: vv for kk, vv in b.ref_count.items() if vv}, getattr(b, "_pending_prune_keys", None))
                     if ba != bb or state_of(ft) != outer_before:
                         o.viol("C07", "failed_call_changed_state", "a failed mutation inside squash_changes changed the batch or the outer trie",
                                call=op[0], key=k, in_batch=True)
